@@ -772,12 +772,12 @@ func (fr *Frame) instr(ins ssa.Instruction, reach *Term, st *State) *Term {
 		vc.oblige("safe.nilmap", fr.lbl(""), reach, Not(Eq(m, Zero)), fr.pos(ins.Pos()), "assignment to entry in nil map", nil, "")
 		dn, ds := mapDomVar(mt)
 		vc.noteSort(dn, ds)
-		st.m[dn] = Sto2(vc.sv(st, dn, ds), m, k, TTrue)
+		st.m[dn] = Sto2(vc.define(dn, ds, vc.sv(st, dn, ds)), m, k, TTrue)
 		v := fr.reify(fr.val(ins.Value, st))
 		for i, l := range e.layout(mt.Elem()) {
 			vn, vs := mapValVar(mt, l)
 			vc.noteSort(vn, vs)
-			st.m[vn] = Sto2(vc.sv(st, vn, vs), m, k, v.Leaves[i])
+			st.m[vn] = Sto2(vc.define(vn, vs, vc.sv(st, vn, vs)), m, k, v.Leaves[i])
 		}
 	case *ssa.Call:
 		return fr.call(ins, ins.Common(), reach, st)
